@@ -19,4 +19,22 @@ TABLE = {
                 note=_FSX_NOTE),
 }
 
+_ENUM_NOTE = ("Trusted base: the enumerators and reference oracles in hivemc/enum_*.py; exhaustive over the stated alphabets and bounds only "
+              "(listed in coverage.rule of the evidence file); CPython + h3/networkx/scipy as installed.")
+
+TABLE.update({
+    "C04": dict(engine="ENUM", design_ref="DESIGN.md 4/C04", technique="bounded exhaustive operation-sequence enumeration against a ledger reference model, plus an FSX transition monitor",
+                text="All sequences of <= depth drive/idle/charge operations (incl. charge durations shorter than / not a multiple of the 60 s curve slice) for 4 powertrain definitions x 5 initial levels through the real mechatronics, and one-step vehicle-level move/charge/idle for 8 step lengths, satisfy range, ledger, strict-expenditure and plug-limit clauses; the same clauses hold on every transition of an FSX exploration of W-res with a BEV, a small BEV and an ICE vehicle.",
+                note=_ENUM_NOTE),
+    "C11": dict(engine="ENUM", design_ref="DESIGN.md 4/C11", technique="bounded exhaustive input enumeration (request files, price tables) through the real update functions against a reference scan",
+                text="Every sorted request file of <= 3 departure times over a boundary-rich grid (4 step lengths x 3 start times x 4 time-outs x both file-reading modes) and every price table of <= 2-3 rows (by id / by region of 4 resolutions, unknown ids, uninstalled plugs) is admitted / cancelled / applied at exactly the reference step, on exactly the named stations and plugs, without an exception.",
+                note=_ENUM_NOTE),
+    "C13": dict(engine="ENUM", design_ref="DESIGN.md 4/C13", technique="bounded exhaustive enumeration of position pairs through the real router with a structural oracle",
+                text="All ordered pairs of positions (5 cells per link) on four generated strongly connected street graphs and the straight-line network, all 541^2 link pairs plus all same-street position pairs of the shipped Denver graph, and ~12 k snap cells: start/end/joined/known-link/first-last-link clauses and snapping-on-link hold.",
+                note=_ENUM_NOTE),
+    "C14": dict(engine="ENUM", design_ref="DESIGN.md 4/C14", technique="bounded exhaustive enumeration of node pairs through the real router against an independent Dijkstra",
+                text="For all ordered node pairs on 259 generated graphs (every {10,100} km/h assignment to the 7 streets of a 2x3 grid x 2 length patterns, ring+chord, dead-end loop, one-way grid) and all 308^2 node pairs of the shipped Denver graph, the inner part of the route has exactly the Dijkstra-minimal travel time (1e-9).",
+                note=_ENUM_NOTE),
+})
+
 NOT_APPLICABLE = {}
